@@ -63,6 +63,10 @@ pub async fn run_case(case: Vec<String>) -> String {
     let delivered: Arc<Mutex<usize>> = Default::default();
     let mut builder = Endpoint::builder();
     let factory = MockStreamFactory::<false>::new(true, 20000);
+    if case[2] == "outalias" {
+        // the connected stream reports another peer address than the one that was dialled
+        *factory.peer_alias.lock() = Some("10.9.9.99:5060".parse().unwrap());
+    }
     builder.add_transport_factory(Arc::new(factory.clone()));
     builder.add_layer(CountLayer { n: delivered.clone() });
     let (tx, rx) = mpsc::unbounded_channel();
